@@ -1589,7 +1589,31 @@ impl C17Prop {
             Ok(())
         })();
         ctx.end_family(r.is_ok());
-        r
+        r?;
+        // real (completing) transfers whose announcement is large: one package, announced buffer size around and above
+        // the 16 MiB the plugin is willing to reserve up front; the content itself is small
+        ctx.begin_family("big_announced_buffer", "transfer of 3 bytes in one package with announced buffer size in {16 MiB - 1, 16 MiB, 16 MiB + 1, 32 MiB, 2^31 - 1} interleaved with a second small transfer x 2 configs (save command / auto-save): complete and saved byte-identical");
+        let r2 = (|| {
+            for b in [(16usize << 20) - 1, 16 << 20, (16 << 20) + 1, 32 << 20, 0x7fff_ffff] {
+                for cfg in [Cfg { glob: Some("*".into()), ..Cfg::save_only() }, Cfg { allow_save: false, glob: Some("*".into()), ..Cfg::save_only() }] {
+                    let mut c = Case {
+                        family: "big_announced_buffer".into(),
+                        cfg,
+                        big_endian: false,
+                        transfers: vec![tr(0, "ECUA", 1, 1, "a.bin", 3, b, Fault::None), tr(1, "ECUB", 1, 1, "d/b.bin", 1, 1, Fault::None)],
+                        bogus: vec![],
+                        unrelated: vec![],
+                        order: vec![],
+                        isolate: false,
+                    };
+                    ctx.landmark("case:big_announced_buffer");
+                    for_interleavings(ctx, sb, &mut c)?;
+                }
+            }
+            Ok(())
+        })();
+        ctx.end_family(r2.is_ok());
+        r2
     }
 }
 
@@ -1616,6 +1640,7 @@ impl Prop for C17Prop {
                 "case:two_transfers_interleaved",
                 "case:preexisting_entry",
                 "case:hostile_announcement",
+                "case:big_announced_buffer",
                 // observed behaviour
                 "complete_reported",
                 "incomplete_reported",
